@@ -174,10 +174,22 @@ fn run_one<K: HKey>(s: &mut Sess, rng: &mut Rng, cfg: &str, keys: &[Vec<u8>], op
         c.op("trace");
         c.op("dump");
     }
+    // C20: what the files say, read without the library (snapshot + records above its version, in
+    // version order) — recovery must show exactly that
+    let described = crate::reader::described_state(&c.s.dir);
     let r = c.op("open");
     if let Some(rest) = r.strip_prefix("ok ") {
         // recovered view: acknowledged history, or that plus the in-flight operation
         let got = c.op("iter");
+        match &described {
+            Some(d) => {
+                c.s.out.count("c20.independent-reader-judged");
+                if crate::reader::as_set(d) != crate::reader::iter_set(&got) {
+                    c.s.out.oracle_fail(format!("C20: recovery shows `{got}`, but the files of the crash image (snapshot + records above its version, in version order) describe {:?}", crate::reader::as_set(d)));
+                }
+            }
+            None => c.s.out.count("c20.independent-reader-abstains"),
+        }
         let fmt = |m: &BTreeMap<K, Vec<u8>>| {
             let v: Vec<String> = m.iter().map(|(k, b)| format!("{}:{}:{}", hx(&k.enc()), hx(blake3::hash(b).as_bytes()), b.len())).collect();
             if v.is_empty() { "_".to_string() } else { v.join(";") }
@@ -223,11 +235,23 @@ fn run_one<K: HKey>(s: &mut Sess, rng: &mut Rng, cfg: &str, keys: &[Vec<u8>], op
     run
 }
 
-fn family<K: HKey>(s: &mut Sess, rng: &mut Rng, mode: Mode, prop: &'static str, big: bool, thorough: bool) {
-    let n_wal = if big { 10_000 } else { *rng.pick(&[1u64, 2, 2, 3, 5]) };
+/// a history that walks the segment ids across a digit boundary (…, 8, 9, 10): two operations per
+/// segment, every operation overwrites one of two keys with a fresh content — the last three the
+/// same key — so that the order in which recovery reads segments 9 and 10 matters
+fn gen_long_history(kind: &str, rng: &mut Rng) -> (Vec<Vec<u8>>, Vec<AOp>) {
+    let mut keys = BTreeSet::new();
+    while keys.len() < 2 { keys.insert(gen_key(kind, rng, 10)); }
+    let keys: Vec<Vec<u8>> = keys.into_iter().collect();
+    let n = 21u64; // version 21 is the first record of segment 10 (two per segment), next to segment 9
+    let ops = (0..n).map(|i| AOp::Put(keys[if i >= 18 { 0 } else { (i % 2) as usize }].clone(), format!("={:02x}{:02x}", 0x41 + i, 0x61 + i))).collect();
+    (keys, ops)
+}
+
+fn family<K: HKey>(s: &mut Sess, rng: &mut Rng, mode: Mode, prop: &'static str, big: bool, thorough: bool, long: bool) {
+    let n_wal = if big { 10_000 } else if long { 2 } else { *rng.pick(&[1u64, 2, 2, 3, 5]) };
     let sync = mode == Mode::PowerLoss || rng.chance(3, 4);
     let cfg = format!("cfg kind={} n={} sync={} pre=0", K::KIND, n_wal, sync as u8);
-    let (keys, ops) = gen_history(K::KIND, rng, big);
+    let (keys, ops) = if long { gen_long_history(K::KIND, rng) } else { gen_history(K::KIND, rng, big) };
     // targets: the first open (rarely), one or two operations, the final close (rarely)
     let mut targets: Vec<usize> = Vec::new();
     if rng.chance(1, 8) { targets.push(usize::MAX); }
@@ -268,8 +292,9 @@ fn family<K: HKey>(s: &mut Sess, rng: &mut Rng, mode: Mode, prop: &'static str, 
 pub fn crashes(s: &mut Sess, rng: &mut Rng, n: u64, mode: Mode, prop: &'static str, thorough: bool) {
     for i in 0..n {
         let big = i % 25 == 7;
+        let long = i % 25 == 13;
         let kind = if big { "bytes" } else { KINDS[rng.below(KINDS.len() as u64) as usize] };
-        s.out.count(if big { "history.big-range-removal" } else { "history.small" });
-        with_kind!(kind, family(s, rng, mode, prop, big, thorough));
+        s.out.count(if big { "history.big-range-removal" } else if long { "history.segment-ids-9-10-11" } else { "history.small" });
+        with_kind!(kind, family(s, rng, mode, prop, big, thorough, long));
     }
 }
